@@ -56,7 +56,7 @@ pub fn resolve_align(
 
         if opts.debug_iterations
         {
-            println!("align: {:?}", align.align_size);
+            debug_println!("align: {:?}", align.align_size);
         }
         
         return Ok(asm::ResolutionState::Unresolved);
